@@ -61,7 +61,7 @@ def gen_cases(ctx, maxops, lines_out, par=False, split=None):
     return n
 
 
-MUX_KINDS = (("xmux", 1), ("xmux", 2), ("h2", 1))
+MUX_KINDS = (("xmux", 1), ("xmux", 2), ("h2", 1), ("bind", 2))
 
 
 def mux_cfg(kind, nidx, maxops, trace=False, reqs="{0, 2}"):
@@ -106,8 +106,8 @@ def run(ctx):
         if rr["ok"] or not rr["violated"]:
             raise vlib.Inconclusive("PingPongPool does not reject defect " + d)
 
-    for cfg in (("MuxPool_xmux.cfg", "MuxPool_xmux2.cfg", "MuxPool_h2.cfg") if q else
-                ("MuxPool_xmux_thorough.cfg", "MuxPool_xmux2.cfg", "MuxPool_h2_thorough.cfg")):
+    for cfg in (("MuxPool_xmux.cfg", "MuxPool_xmux2.cfg", "MuxPool_h2.cfg", "MuxPool_bind.cfg") if q else
+                ("MuxPool_xmux_thorough.cfg", "MuxPool_xmux2.cfg", "MuxPool_h2_thorough.cfg", "MuxPool_bind_thorough.cfg")):
         ctx.add_tlc(vlib.run_tlc(ctx, "pool", "MuxPool", cfg, timeout=1500))
     for d in ("DestroyNotCounted", "GoAwayKeepsAccepting", "DeleteClientInGoAway", "CountOnOneway"):
         rr = vlib.run_tlc(ctx, "pool", "MuxPool", "MuxPool_defect_%s.cfg" % d, expect_ok=False)
@@ -249,7 +249,7 @@ def run(ctx):
                        "distinct = histories x pools. Multiplexed pools (MuxPool): every history of length %d (and a VERIF_SEED sample / all of length %d) over "
                        "{new (up/down, one-way, retry on the downstream context of an ended attempt), response, local reset, peer reset (h2), go-away, "
                        "remote close, undecodable input, pool Close, Shutdown} with max_requests in %s, replayed into the xprotocol multiplex pool "
-                       "(1 and 2 client indexes) and the HTTP/2 pool") % (
+                       "(1 and 2 client indexes), the HTTP/2 pool and the binding pool (2 downstream connections, plus the operation 'downstream connection closes')") % (
                            depth, "6 of {0,1,2}^2" if q else "{0,1,2}^2", 4 if q else 5, len(deep_lines),
                            mdepth, mdepth + 1, "{0,2}" if q else "{0,1,2}")
     ctx.assumptions += [
@@ -260,5 +260,5 @@ def run(ctx):
         "multiplex pool driven with a harness codec (bolt wire format, PoolMode()=Multiplex, heartbeat on); HTTP/2 pool against a raw-frame h2c peer "
         "(SETTINGS/PING handled, HEADERS = request, answers HEADERS+END_STREAM, RST_STREAM, GOAWAY with last-stream-id 2^31-1)",
         "a go-away is known to be handled when a probe sent after it (heartbeat / PING) is acknowledged or the connection closes",
-        "the binding pool (connpool_binding.go) is not driven",
+        "binding pool driven with a harness codec (bolt wire format, PoolMode()=TCP) and stand-in downstream connections (id, event listeners, Close) for 2 downstream connections",
     ]
